@@ -51,6 +51,30 @@ def sers_of(d):
     return dict(x.split('=') for x in d.split(' | ')[0].split(' ') if '=' in x)
 
 
+def parse_tx(rng, names):
+    """a transaction whose serialisation parses back to the same shape (legacy, or segwit with one stack per input);
+    repeated scripts inside it on purpose"""
+    from bitcoinutils.transactions import Transaction, TxWitnessInput, TxOutput
+    from bitcoinutils.script import Script
+    seg = rng.random() < 0.5
+    t = G.gen_tx(rng, names, kind='segwit' if seg else 'legacy', max_in=3, max_out=3, min_out=2, big=False)
+    t.outputs[1] = TxOutput(t.outputs[1].amount, Script(list(t.outputs[0].script_pubkey.script)))     # two outputs, one script
+    if rng.random() < 0.5:
+        for x in t.inputs: x.script_sig = Script([])                                                      # unsigned
+    if seg:
+        t.has_segwit = True
+        t.witnesses = [TxWitnessInput([G.rbytes(rng, rng.randrange(1, 40)).hex() for _ in range(rng.randrange(0, 3))]) for _ in t.inputs]
+    else:
+        t.has_segwit = False; t.witnesses = []
+    try:
+        raw = t.to_hex(); u = Transaction.from_raw(raw)
+        if u.to_hex() != raw or len(u.witnesses) != len(t.witnesses) or u.has_segwit != t.has_segwit: return None
+        if tx_to_line(u) != tx_to_line(t): return None
+    except Exception:
+        return None
+    return t
+
+
 def history(ctx, rng, names_ops):
     """yields (line, kind, target) for one random history"""
     names = G.op_names()
@@ -74,6 +98,14 @@ def history(ctx, rng, names_ops):
             dfl = [i for i in range(len(t2.inputs)) if rng.random() < 0.6]
             shape[b] = (len(t2.inputs), len(t2.outputs), len(t2.witnesses))
             yield (f'h_newtx {b} {tx_to_line(t2)} ' + ' '.join([str(len(dfl))] + [str(i) for i in dfl]), 'new', b)
+        elif r < 0.27 and len(live) < 5:
+            # transactions obtained by parsing: the same bytes parsed twice, outputs paying the same script, empty scriptSigs
+            t2 = parse_tx(rng, names)
+            if t2 is not None:
+                for _ in range(rng.choice([1, 2])):
+                    if len(live) < 5:
+                        b = fresh(); shape[b] = (len(t2.inputs), len(t2.outputs), len(t2.witnesses))
+                        yield (f'h_parsetx {b} {tx_to_line(t2)}', 'new', b)
         elif r < 0.32:
             b = rng.choice(live)
             what = rng.choice(['in', 'out', 'wit', 'script'])
@@ -101,6 +133,10 @@ def history(ctx, rng, names_ops):
         elif ni:
             i = rng.randrange(ni)
             code = ['OP_DUP', 'OP_HASH160', G.rbytes(rng, 20).hex(), 'OP_EQUALVERIFY', 'OP_CHECKSIG']
+            if rng.random() < 0.35:
+                # scripts a digest function might want to "normalise": code separators, several of them, first / last
+                code = [G.rbytes(rng, 33).hex(), 'OP_CHECKSIGVERIFY', G.rbytes(rng, 33).hex(), 'OP_CHECKSIG']
+                for _ in range(rng.randrange(1, 3)): code.insert(rng.randrange(0, len(code) + 1), 'OP_CODESEPARATOR')
             k = rng.random()
             if k < 0.5:
                 ht = rng.choice([1, 2, 3, 0x81, 0x82, 0x83])
@@ -176,6 +212,7 @@ def cases(ctx):
         ref = {'ans': None}
         for pm in [tuple(range(n))] + [p for p in perms if p != tuple(range(n))]:
             def spec(ans, ref=ref):
+                if 'changed-its-argument' in ans: return ('s:raw signing-leaves-its-arguments-alone', ans)
                 if ref['ans'] is None: ref['ans'] = ans
                 return (f's:raw {ref["ans"]}', ans)
             ctx.count('perm')
@@ -203,6 +240,8 @@ def impl(op, a, ctx):
         for i, (txid, idx, s, seq) in enumerate(raw_ins):
             ins.append(TxInput(txid, idx, sequence=seq) if i in dfl else TxInput(txid, idx, Script(s), seq))
         POOL[n] = Transaction(ins, [TxOutput(am, Script(s)) for am, s in outs], locktime, version, seg, [TxWitnessInput(w) for w in wits])
+    elif op == 'h_parsetx':
+        n = F.next(); POOL[n] = Transaction.from_raw(line_to_tx(F).to_hex()); SHARED.pop(n, None)
     elif op == 'h_copytx':
         a_, b_ = F.next(), F.next(); POOL[b_] = Transaction.copy(POOL[a_])
         SHARED.pop(b_, None)
@@ -231,19 +270,30 @@ def impl(op, a, ctx):
         n = F.next(); i = F.nat(); POOL[n].witnesses[i] = TxWitnessInput([b.hex() for b in F.list(F.bytes)])
     elif op == 'h_dig_legacy':
         n = F.next(); i = F.nat(); code = Script(F.toks()); ht = F.nat()
+        args = [code]; before = snap(args)
         try: out = hx(POOL[n].get_transaction_digest(i, code, ht))
         except Exception: out = 'err'
+        if snap(args) != before: out = 'digest-changed-its-argument'
     elif op == 'h_dig_v0':
         n = F.next(); i = F.nat(); code = Script(F.toks()); amt = F.int(); ht = F.nat()
+        args = [code]; before = snap(args)
         try: out = hx(POOL[n].get_transaction_segwit_digest(i, code, amt, ht))
         except Exception: out = 'err'
+        if snap(args) != before: out = 'digest-changed-its-argument'
     elif op == 'h_dig_v1':
         n = F.next(); i = F.nat(); spks = [Script(s) for s in F.list(F.toks)]; amts = F.list(F.int); ext = F.nat(); leaf = Script(F.toks()); ht = F.nat()
+        args = spks + [leaf]; before = (snap(args), list(amts), len(spks))
         try: out = hx(POOL[n].get_transaction_taproot_digest(i, spks, amts, ext, leaf, sighash=ht))
         except Exception: out = 'err'
+        if (snap(args), list(amts), len(spks)) != before: out = 'digest-changed-its-argument'
     else:
         raise ValueError(op)
     return f'ok {out} | ' + dump()
+
+
+def snap(scripts):
+    """the caller's view of the Script objects it passed in"""
+    return [list(x.script) for x in scripts]
 
 
 def perm_sign(F):
@@ -257,12 +307,17 @@ def perm_sign(F):
     n = len(tx.inputs)
     spks = [Script(['OP_1', ('%02x' % (i + 1)) * 32]) for i in range(n)]
     amts = [1000 + i for i in range(n)]
-    keyobjs = {}
+    keyobjs = {}; codes = {}
+    def flat(t): return [t] if not isinstance(t, list) else [y for x in t for y in flat(x)]
     TREES = [None, [Script(['OP_1'])], [[Script(['OP_2']), Script(['OP_3'])], Script(['OP_4'])]]
     for i in order:
         kind, ht, d, tr = specs[i][0], int(specs[i][1]), int(specs[i][2]), int(specs[i][3])
         k = keyobjs.setdefault(d, PrivateKey(secret_exponent=d)); pub = k.get_public_key()       # one object per key
         code = Script(['OP_DUP', 'OP_HASH160', pub.to_hash160(), 'OP_EQUALVERIFY', 'OP_CHECKSIG'])
+        if d % 3 == 0:    # a script with code separators (one object per key, shared by all the inputs that key signs)
+            code = codes.setdefault(d, Script([pub.to_hex(), 'OP_CHECKSIGVERIFY', 'OP_CODESEPARATOR', pub.to_hex(), 'OP_CHECKSIG']))
+        watched = [code] + spks + [x for t in TREES if t for x in flat(t)]
+        before = snap(watched)
         if kind == 'legacy':
             if ht & 0x1f == 3 and i >= len(tx.outputs): ht = 1
             sig = k.sign_input(tx, i, code, ht)
@@ -274,4 +329,5 @@ def perm_sign(F):
         else:
             sig = k.sign_taproot_input(tx, i, spks, amts, tapleaf_scripts=TREES[tr], sighash=ht)
             tx.witnesses[i] = TxWitnessInput([sig])
+        if snap(watched) != before: return 'ok signing-changed-its-argument'
     return 'ok ' + tx.to_hex()
